@@ -53,7 +53,7 @@ theorem pin_success_sound_partial (i : Input) (hw : wf i = true) (hop : i.op = .
     exact addCall_ok _ _ _ _ h hk
   · rw [hp] at h ⊢
     have hr := updCall_ok _ _ _ _ h
-    obtain ⟨_, hm⟩ := lsCid_r _ _ _ _ hu
+    obtain ⟨_, hm⟩ := lsCid_r _ _ _ _ (clsAt_ne_honestAny _ _) hu
     have hd : i.depth ≠ 0 := by
       intro hd
       simp [wf, hsrc, hm, hd] at hw
@@ -73,21 +73,29 @@ theorem unpin_success_sound (i : Input) (hw : wf i = true) (hop : i.op = .unpin)
     intro hl
     simp [wf, hop, hl.1, hl.2] at hw
 
-/-- a truthfully answered `PinLsCid` reports the daemon's state as far as the type filter shows it -/
-theorem ls_truthful (i : Input) (hop : i.op = .ls) (hb : clsAt false (i.beh 0) = .honest) :
-    (run i).res = .st (if i.table i.cid = wanted i.depth then i.table i.cid else .u) := by
+/-- a truthfully answered `PinLsCid` reports the daemon's state as far as the type filter shows it;
+if the daemon lists the pin whatever the filter, exactly the daemon's state -/
+theorem ls_truthful (i : Input) (hop : i.op = .ls) :
+    (clsFirst (i.beh 0) = .honest →
+      (run i).res = .st (if i.table i.cid = wanted i.depth then i.table i.cid else .u)) ∧
+    (clsFirst (i.beh 0) = .honestAny → (run i).res = .st (i.table i.cid)) := by
   simp only [run, hop, lsOp]
-  rw [lsCid_honest _ _ _ _ hb, wanted_eq_asked]
+  constructor <;> intro hb <;> rw [hb]
+  · rw [lsCid_honest, wanted_eq_asked]
+  · rw [lsCid_honestAny]
 
 /-! ### requests nothing when already pinned as asked -/
 
 theorem no_request_when_already (i : Input) (hop : i.op = .pin)
-    (hp : i.table i.cid = wanted i.depth) (hb : clsAt false (i.beh 0) = .honest) :
+    (hp : i.table i.cid = wanted i.depth)
+    (hb : clsFirst (i.beh 0) = .honest ∨ clsFirst (i.beh 0) = .honestAny) :
     (run i).res = .ok ∧ (run i).trace = [.ls i.cid (typeRec i.depth)] ∧ (run i).swarmMax = 0 ∧
       (run i).final = i.table := by
   rw [wanted_eq_asked] at hp
-  have h0 := lsCid_honest i.table i.cid i.depth _ hb
-  simp only [hp, if_true] at h0
+  have h0 : lsCid i.table i.cid (typeRec i.depth) (clsFirst (i.beh 0)) = .status (asked i.depth) := by
+    rcases hb with hb | hb <;> rw [hb]
+    · rw [lsCid_honest]; simp [hp]
+    · rw [lsCid_honestAny, hp]
   simp [run, hop, pin, h0]
 
 /-! ### unpinning what is not pinned is a success -/
@@ -117,7 +125,7 @@ theorem update_only_if_recursive (i : Input) (f t : Nat) (u : Bool) (h : Req.upd
     rcases pin_cases i with ⟨_, hp⟩ | ⟨h0, hp⟩ | ⟨s, h0, hs, hsrc, hp⟩ | ⟨s, f', h0, hs, hsrc, hu, hp⟩ |
         ⟨s, f', h0, hs, hsrc, hu, hp⟩ <;> rw [hp] at h <;> simp [addReq] at h
     obtain ⟨rfl, rfl, _⟩ := h
-    exact ⟨rfl, hsrc, rfl, (lsCid_r _ _ _ _ hu).1⟩
+    exact ⟨rfl, hsrc, rfl, (lsCid_r _ _ _ _ (clsAt_ne_honestAny _ _) hu).1⟩
 
 /-- … and always with `unpin=false` -/
 theorem update_unpin_false (i : Input) (f t : Nat) (u : Bool) (h : Req.upd f t u ∈ (run i).trace) :
@@ -178,7 +186,7 @@ theorem errors_reported_partial (i : Input) (hk : streamErrServed i = false)
       rw [rmCall_of_failure i 0 _ hf]; rfl
   | ls =>
     simp only [run, hop, lsOp] at hf ⊢
-    cases hl : lsCid i.table i.cid (typeRec i.depth) (i.beh 0) with
+    cases hl : lsCid i.table i.cid (typeRec i.depth) (clsFirst (i.beh 0)) with
     | err => rfl
     | status s =>
       rw [hl] at hf
@@ -286,26 +294,19 @@ theorem allowed_holds_partial (i : Input) (o : Output) (hw : wf i = true) (ha : 
       simp [unpin_success_sound i hw h'.1 h'.2]
     · simp [h]
   have c3 : cLsTruthful i o = true := by
-    unfold cLsTruthful; rw [hres]
-    by_cases h : (i.op == .ls && clsAt false (i.beh 0) == .honest) = true
-    · have h' : i.op = .ls ∧ clsAt false (i.beh 0) = .honest := by simpa using h
-      have := ls_truthful i h'.1 h'.2
-      simp [this]
-    · simp [h]
+    rw [cLsTruthful_iff, hres]
+    exact ⟨fun hop hb => (ls_truthful i hop).1 hb, fun hop hb => (ls_truthful i hop).2 hb⟩
   have c4 : cErrorsReported i o = true := by
     unfold cErrorsReported served; rw [hres, htr]
     by_cases h : ((servedT i (run i).trace).zipIdx.any (fun x => failure i x.2 x.1.1 x.1.2)) = true
     · simp [errors_reported_partial i hk1 h]
     · simp [h]
   have c5 : cNoRequestWhenAlready i o = true := by
-    unfold cNoRequestWhenAlready; rw [hres, htr, hfc]
-    by_cases h : (i.op == .pin && i.table i.cid == wanted i.depth && clsAt false (i.beh 0) == .honest) = true
-    · have h' : (i.op = .pin ∧ i.table i.cid = wanted i.depth) ∧ clsAt false (i.beh 0) = .honest := by
-        simpa using h
-      obtain ⟨h1, h2, h3, h4⟩ := no_request_when_already i h'.1.1 h'.1.2 h'.2
-      rw [h3] at hsw
-      simp [h1, h2, h4, isLsOf, swarmOk_zero _ hsw]
-    · simp [h]
+    rw [cNoRequestWhenAlready_iff, hres, htr, hfc]
+    intro hop hp hb
+    obtain ⟨h1, h2, h3, h4⟩ := no_request_when_already i hop hp hb
+    rw [h3] at hsw
+    simp [h1, h2, h4, isLsOf, swarmOk_zero _ hsw]
   have c6 : cUnpinAbsentOk i o = true := by
     unfold cUnpinAbsentOk; rw [hres]
     by_cases h : (i.op == .unpin && !i.unpinDisable && !held (i.table i.cid) &&
@@ -366,10 +367,12 @@ clause by clause, as propositions: it cannot be quietly weaker than the statemen
 theorem holds_iff (i : Input) (o : Output) : holds i o = true ↔
     ((i.op = .pin → o.res = .ok → o.final i.cid = wanted i.depth) ∧
      (i.op = .unpin → o.res = .ok → held (o.final i.cid) = false) ∧
-     (i.op = .ls → clsAt false (i.beh 0) = .honest →
+     ((i.op = .ls → clsFirst (i.beh 0) = .honest →
         o.res = .st (if i.table i.cid = wanted i.depth then i.table i.cid else .u)) ∧
+      (i.op = .ls → clsFirst (i.beh 0) = .honestAny → o.res = .st (i.table i.cid))) ∧
      ((∃ x ∈ (served i o).zipIdx, failure i x.2 x.1.1 x.1.2 = true) → isSuccess o.res = false) ∧
-     (i.op = .pin → i.table i.cid = wanted i.depth → clsAt false (i.beh 0) = .honest →
+     (i.op = .pin → i.table i.cid = wanted i.depth →
+        (clsFirst (i.beh 0) = .honest ∨ clsFirst (i.beh 0) = .honestAny) →
         o.res = .ok ∧ (∀ r ∈ o.trace, isLsOf i.cid r = true) ∧ o.trace.length ≤ 1 ∧ o.swarm = [] ∧
           o.final i.cid = i.table i.cid) ∧
      (i.op = .unpin → i.unpinDisable = false → held (i.table i.cid) = false →
